@@ -182,6 +182,21 @@ func init() {
 			return sym.Bool(e.M.Known[e.strArg(a[0])])
 		},
 		"vAllocCheck": func(e *Exec, c *frame, fn *ssa.Function, a []Value) Value { return nil },
+		"vStackDepth": func(e *Exec, c *frame, fn *ssa.Function, a []Value) Value {
+			// frames of the code under test (the repository's packages, not the
+			// harness, not the standard library) on the current call stack
+			n := 0
+			for fr := e.cur; fr != nil; fr = fr.caller {
+				if fr.fn.Pkg == nil || !strings.HasPrefix(fr.fn.Pkg.Pkg.Path(), e.M.Module) {
+					continue
+				}
+				if fr.fn.Pos().IsValid() && strings.Contains(e.M.Prog.Fset.Position(fr.fn.Pos()).Filename, "zz_verif_") {
+					continue
+				}
+				n++
+			}
+			return i64(n)
+		},
 		"vPause":    func(e *Exec, c *frame, fn *ssa.Function, a []Value) Value { return nil },
 		"vRaceMode": func(e *Exec, c *frame, fn *ssa.Function, a []Value) Value { return sym.Bool(false) },
 		"vSymbolic": func(e *Exec, c *frame, fn *ssa.Function, a []Value) Value { return sym.Bool(true) },
